@@ -16,6 +16,8 @@ def main (args : List String) : IO UInt32 := do
   | ["stack"] => Driver.Stack.main; return 0
   | ["stackconc"] => Driver.Stack.main; return 0
   | ["wq"] => Driver.WQ.main; return 0
+  | ["pubsim", seed] => Driver.Pub.simMain (seed.toNat?.getD 1); return 0
+  | ["wqsim", seed] => Driver.WQ.simMain (seed.toNat?.getD 1); return 0
   | ["pub"] => Driver.Pub.main; return 0
   | ["server"] => Driver.Server.main; return 0
   | ["lifecycle"] => Driver.Server.main; return 0
